@@ -65,7 +65,7 @@ type PairConfig struct {
 	AllowList      []string
 	Listeners      []ListenerSpec
 	ViaRelay       bool                // put a recording relay between client and server (tcp, http(s), udp carriers)
-	HostSpelling   string              // "127.0.0.1" (default) or "localhost" in the upstream URL
+	HostSpelling   string              // "127.0.0.1" (default), "localhost", or "(none)" for a host-less upstream URL
 	Domain         string              // DNS tunnel domain
 	ExtraUpstreams []upstream.Upstream // tried before the pair's own upstream (C16)
 	HTTPEndpoints  []EndpointSpec      // websocket paths of an http(s) server (default: /ws/all with AllowList)
@@ -122,6 +122,9 @@ func buildEndpoints(cfg *PairConfig, p *Pair) (server.Server, upstream.Upstream,
 	host := cfg.HostSpelling
 	if host == "" {
 		host = "127.0.0.1"
+	}
+	if host == "(none)" {
+		host = "" // an upstream address without a host part, e.g. tcp://:1234
 	}
 	switch cfg.Carrier {
 	case CarTCP, CarTCPTLS:
@@ -295,6 +298,9 @@ func (p *Pair) UpstreamFor() upstream.Upstream {
 	host := cfg.HostSpelling
 	if host == "" {
 		host = "127.0.0.1"
+	}
+	if host == "(none)" {
+		host = ""
 	}
 	port := p.SrvPort
 	if p.Relay != nil {
